@@ -175,7 +175,52 @@ pub fn cut_collect_ids(remote_nodes: &mut HashSet<NodeIdentifier>, nodes: HashSe
 //@ attr #[verifier::loop_isolation(false)]
 //@ rewrite E3 "crate::Error" => "crate_error::Error" x*
 //@ cut "for node in nodes" => "cut_collect_ids(&mut remote_nodes, nodes);"
-//@ rewrite E21 "for mut node in nodes \{" => "for node0 in it: nodes invariant all_nodes_ok(it.seq()), all_rows_ok(nodes_to_insert@), all_rows_as_announced(nodes_to_insert@), { let mut node = node0;" x2
+//@ rewrite E21 "for mut node in nodes \{" => "for node0 in it: nodes invariant all_nodes_ok(it.seq()), all_rows_ok(nodes_to_insert@), all_rows_as_announced(nodes_to_insert@), ingested ==> has_changes, { let mut node = node0;" x2
+//@ loop "while let Some(edge_deletion) = edge_deletion_recv.recv().await"
+            invariant
+                // [whatever_was_ingested_so_far_is_a_change]{C18}
+                ingested ==> has_changes,
+//@ loop "while let Some(node_deletion) = node_deletion_recv.recv().await"
+            invariant
+                // [whatever_was_ingested_so_far_is_a_change]{C18}
+                ingested ==> has_changes,
+//@ loop "while let Some(nodes) = remote_nodes_receiv.recv().await"
+            invariant
+                // [whatever_was_ingested_so_far_is_a_change]{C18}
+                ingested ==> has_changes,
+//@ loop "for node_to_insert in filtered"
+            invariant
+                // [whatever_was_ingested_so_far_is_a_change]{C18}
+                ingested ==> has_changes,
+//@ loop "while let Some(nodes) = result_recv.recv().await" #1
+            invariant
+                // [whatever_was_ingested_so_far_is_a_change]{C18}
+                ingested ==> has_changes,
+//@ loop "while let Some(nodes) = result_recv.recv().await" #2
+            invariant
+                // [whatever_was_ingested_so_far_is_a_change]{C18}
+                ingested ==> has_changes,
+//@ loop "while let Some(edges) = result_recv.recv().await" #1
+            invariant
+                // [whatever_was_ingested_so_far_is_a_change]{C18}
+                ingested ==> has_changes,
+//@ loop "while let Some(edges) = result_recv.recv().await" #2
+            invariant
+                // [whatever_was_ingested_so_far_is_a_change]{C18}
+                ingested ==> has_changes,
+//@ insert body-start
+        let ghost mut ingested: bool = false;
+//@ insert-each after-stmt ".delete_edges(edge_deletion)" optional
+                proof { ingested = true; }
+//@ insert-each after-stmt ".delete_nodes(node_deletion)" optional
+                proof { ingested = true; }
+//@ insert-each after-stmt ".add_nodes(room_id, nodes_to_insert)" optional
+                    proof { ingested = true; }
+//@ insert-each after-stmt "discret_services.database.add_edges(room_id, edges)" optional
+                    proof { ingested = true; }
+//@ insert-each before-stmt "Ok(has_changes)" optional
+        // [whatever_was_ingested_is_reported_as_a_change]{C18} a day's synchronisation that handed anything to the database - rows, references or deletion records - reports a change: the caller then asks for the recomputation that produces the data-changed event
+        assert(ingested ==> has_changes);
 //@ insert-each before-stmt ".delete_edges(edge_deletion)"
                 // [edge_deletions_ingested_only_after_signature_check] reference deletion records reach the database only out of the signature verification service
                 assert(all_edge_dels_ok(edge_deletion@));
